@@ -37,6 +37,14 @@ pub struct TaskCtx {
     pub right_privates: Vec<(String, usize)>,
     /// user guide assumptions with placeholders replaced
     pub ug_assumptions: Vec<fol::Formula>,
+    /// name under which each private predicate of the right program appears in the problems
+    /// (read off the emitted problems by `bind_right_names`; a clashing private predicate for
+    /// which the problems hold no name of its own gets a name that occurs nowhere)
+    pub right_names: BTreeMap<(String, usize), (String, usize)>,
+    /// some problem of the task gives two different symbolic constants of the input one name
+    pub symbols_identified: bool,
+    /// symbolic constants the programs mention (placeholders excluded)
+    pub symbols: Vec<String>,
 }
 
 fn is_public(t: &TaskCtx, p: &(String, usize)) -> bool {
@@ -97,12 +105,81 @@ pub fn make_ctx(texts: ExtTexts) -> Result<TaskCtx, String> {
         .filter(|f| f.role == fol::Role::Assumption)
         .map(|f| replace_placeholders(&f.formula, &placeholders))
         .collect();
-    Ok(TaskCtx { texts, parsed, inputs, outputs, placeholders, left_privates, right_privates, ug_assumptions })
+    let right_names = right_privates.iter().map(|p| (p.clone(), if left_privates.contains(p) { (format!("{}_p", p.0), p.1) } else { p.clone() })).collect();
+    let mut symbols: Vec<String> = parsed.right.function_constants().into_iter().collect();
+    if let Either::Left(p) = &parsed.left {
+        symbols.extend(p.function_constants());
+    }
+    symbols.sort();
+    symbols.dedup();
+    symbols.retain(|c| !placeholders.iter().any(|(n, _)| n == c));
+    Ok(TaskCtx { texts, parsed, inputs, outputs, placeholders, left_privates, right_privates, ug_assumptions, right_names, symbols_identified: false, symbols })
+}
+
+/// Reads the names of the right program's private predicates off the emitted problems instead of
+/// prescribing anthem's renaming scheme: a private predicate p/n that both sides have must
+/// appear under a name `p_<suffix>`/n of its own, i.e. one that is neither public nor a private
+/// predicate of the left side nor another private predicate of the right side. If the problems
+/// hold no such name, the two sides' predicates are identified; the right one then gets a name
+/// that occurs in no problem, so that the problems are evaluated with the left one's extent and
+/// every interpretation in which the two must differ shows the disagreement.
+pub fn bind_right_names(t: &mut TaskCtx, problems: &[ProblemData], st: &mut Stats) {
+    let in_problems = crate::monitors::sem::problem_preds(problems);
+    let clashing: Vec<&(String, usize)> = t.right_privates.iter().filter(|p| t.left_privates.contains(p)).collect();
+    // predicates of the problems that belong to nobody under their own name, each attributed to
+    // the clashing private predicate with the longest name it extends (`on_p_x` extends `on_p`
+    // rather than `on`)
+    let mut own: BTreeMap<(String, usize), Vec<(String, usize)>> = BTreeMap::new();
+    for q in &in_problems {
+        if t.left_privates.contains(q) || t.right_privates.contains(q) || t.inputs.contains(q) || t.outputs.contains(q) {
+            continue;
+        }
+        let best = clashing
+            .iter()
+            .filter(|p| p.1 == q.1 && q.0.len() > p.0.len() + 1 && q.0.starts_with(&format!("{}_", p.0)))
+            .max_by_key(|p| p.0.len());
+        if let Some(p) = best {
+            own.entry((*p).clone()).or_default().push(q.clone());
+        }
+    }
+    let mut names = BTreeMap::new();
+    for p in &t.right_privates {
+        if !t.left_privates.contains(p) {
+            names.insert(p.clone(), p.clone());
+            continue;
+        }
+        match own.get(p).map(|v| v.as_slice()) {
+            Some([one]) => {
+                names.insert(p.clone(), one.clone());
+            }
+            _ => {
+                st.inc("clashing_private_predicates_without_a_name_of_their_own");
+                names.insert(p.clone(), (format!("{}~right", p.0), p.1));
+            }
+        }
+    }
+    t.right_names = names;
+}
+
+/// Reads the names of private predicates and symbolic constants off the problems: binds the
+/// right side's private predicates to the names they carry, and returns the problems with every
+/// symbolic constant under the name it has in the input files (constants renamed for TPTP's sake
+/// are read as the constants they stand for).
+pub fn prepare(t: &mut TaskCtx, problems: &[ProblemData], st: &mut Stats) -> Vec<ProblemData> {
+    bind_right_names(t, problems, st);
+    if problems.iter().any(|p| p.symbol_map.iter().any(|(c, n)| c != n)) {
+        st.inc("tasks_with_renamed_symbolic_constants");
+    }
+    if problems.iter().any(|p| p.identifies_symbols()) {
+        t.symbols_identified = true;
+        st.inc("tasks_where_two_symbolic_constants_got_one_name");
+    }
+    problems.iter().map(|p| p.with_original_symbols()).collect()
 }
 
 /// name under which a private predicate of the right program appears in the problems
 fn right_key(t: &TaskCtx, p: &(String, usize)) -> (String, usize) {
-    if t.left_privates.contains(p) { (format!("{}_p", p.0), p.1) } else { p.clone() }
+    t.right_names.get(p).cloned().unwrap_or_else(|| p.clone())
 }
 
 #[derive(Clone)]
@@ -245,7 +322,19 @@ fn gen_placeholders(t: &TaskCtx, r: &mut Rng) -> BTreeMap<String, Value> {
 }
 
 fn gen_inputs(t: &TaskCtx, r: &mut Rng) -> AtomSet {
-    let pool = [Value::Int(0), Value::Int(1), Value::Int(2), Value::Sym("a".into())];
+    // integers and one or two of the symbolic constants the programs themselves mention
+    let mut pool = vec![Value::Int(0), Value::Int(1), Value::Int(2)];
+    if t.symbols.is_empty() || r.chance(1, 3) {
+        pool.push(Value::Sym("a".into()));
+    } else {
+        pool.push(Value::Sym(t.symbols[r.upto(t.symbols.len())].clone()));
+        if r.chance(1, 3) {
+            let c = Value::Sym(t.symbols[r.upto(t.symbols.len())].clone());
+            if !pool.contains(&c) {
+                pool.push(c);
+            }
+        }
+    }
     let mut s = AtomSet::new();
     for (p, n) in &t.inputs {
         let dens = if *n <= 1 { 2 } else { 5 };
@@ -394,6 +483,13 @@ fn classify(t: &TaskCtx, forward: bool, _observed: Tv, _expected: Tv) -> String 
             tag = ":output-predicate-not-mentioned-by-one-side".into();
         }
     }
+    // a private predicate that both sides have and for which the problems hold no separate name
+    if t.right_names.values().any(|n| n.0.ends_with("~right")) {
+        tag = ":private-predicates-of-the-two-sides-identified".into();
+    }
+    if t.symbols_identified {
+        tag = ":symbolic-constants-identified-by-renaming".into();
+    }
     format!("{}-mismatch{}", if forward { "forward" } else { "backward" }, tag)
 }
 
@@ -433,6 +529,11 @@ pub fn check_task(t: &TaskCtx, flags: Flags, problems: &[ProblemData], interps: 
 fn gen_task(r: &mut Rng, st: &mut Stats) -> Option<TaskCtx> {
     let mut o = ExtOpts::default();
     o.hostile_identifiers = false;
+    // private predicates named like the renamed copy of another one (aux next to aux_p)
+    o.renamed_twins = r.chance(1, 4);
+    // symbolic constants named like 0-ary predicates (renamed in the problems), next to constants
+    // named like the renamed ones
+    o.symbols_like_predicates = r.chance(1, 5);
     let want_spec = r.chance(1, 3);
     if want_spec {
         // the specification is derived from a left program without private predicates
@@ -500,7 +601,7 @@ pub fn derive_spec(texts: &ExtTexts, r: &mut Rng) -> Option<String> {
 }
 
 fn case(cfg: &Config, idx: u64, r: &mut Rng, st: &mut Stats) {
-    let Some(t) = gen_task(r, st) else { return };
+    let Some(mut t) = gen_task(r, st) else { return };
     let flags = Flags::random(r);
     let problems = match build_external(&t.parsed, false, flags) {
         Built::Ok { problems, .. } => problems,
@@ -514,6 +615,7 @@ fn case(cfg: &Config, idx: u64, r: &mut Rng, st: &mut Stats) {
         }
     };
     st.inc("tasks_accepted");
+    let problems = prepare(&mut t, &problems, st);
     if idx < 3 {
         st.sample(origin(&t, flags).set("problems", J::Arr(problems.iter().map(|p| J::s(&p.name)).collect())));
     }
@@ -527,7 +629,7 @@ fn case(cfg: &Config, idx: u64, r: &mut Rng, st: &mut Stats) {
 
 /// C19 workload: the 8 flag families of an external task compared on model-guided interpretations
 pub fn guided_flag_case(cfg: &Config, idx: u64, r: &mut Rng, st: &mut Stats) {
-    let Some(t) = gen_task(r, st) else { return };
+    let Some(mut t) = gen_task(r, st) else { return };
     let mut fams = Vec::new();
     for fl in Flags::all_for(Dir::Universal) {
         match build_external(&t.parsed, true, fl) {
@@ -536,6 +638,7 @@ pub fn guided_flag_case(cfg: &Config, idx: u64, r: &mut Rng, st: &mut Stats) {
         }
     }
     st.inc("external_guided_tasks");
+    let fams: Vec<(Flags, Vec<ProblemData>)> = fams.into_iter().map(|(fl, ps)| (fl, prepare(&mut t, &ps, st))).collect();
     let _ = (cfg, idx);
     let org = origin(&t, Flags::all_for(Dir::Universal)[0]);
     for fi in guided_interps(&t, r, st, 5) {
@@ -558,10 +661,11 @@ fn replay_known(k: &KnownFinding) -> bool {
         ug: w.str("user_guide").unwrap_or("").to_string(),
         po: String::new(),
     };
-    let Ok(t) = make_ctx(texts) else { return false };
+    let Ok(mut t) = make_ctx(texts) else { return false };
     let flags = Flags { sequential: true, direction: Dir::Universal, simplify: true, break_equivalences: true };
     let Built::Ok { problems, .. } = build_external(&t.parsed, false, flags) else { return false };
     let mut st = Stats::default();
+    let problems = prepare(&mut t, &problems, &mut st);
     let mut r = Rng::new(3);
     let mut interps = Vec::new();
     for _ in 0..12 {
